@@ -75,7 +75,10 @@ class _Runner(_Processor):
         self._tasks.discard(task)
         self._limiter.release()
         self._tasks_processed += 1
-        if self.max_tasks_hit:
+        # consumers stop taking messages on their own when enough tasks have been started,
+        # so stop the runner only when all of those tasks are done - otherwise a message, which
+        # has already got a slot, but hasn't been started yet, would be turned away
+        if self.max_tasks - self._tasks_processed <= 0:
             self.stop_consume_event.set()
 
     async def _process_with_event(
